@@ -243,6 +243,45 @@ func runSchedCase(c *ccase, out *bufio.Writer) error {
 				return err
 			}
 			runIdx++
+		case "pct":
+			// probabilistic concurrency testing (Burckhardt et al.): random thread priorities, the highest enabled
+			// priority runs, and at depth-1 random change points the running thread drops to the lowest priority:
+			// long stretches with few, randomly placed preemptions (the seeded fine-grained scheduler almost never
+			// produces those on long runs)
+			seed, _ := strconv.ParseInt(f[1], 10, 64)
+			count, _ := strconv.Atoi(f[2])
+			depth, _ := strconv.Atoi(f[3])
+			kmax, _ := strconv.Atoi(f[4])
+			for r := 0; r < count; r++ {
+				rng := rand.New(rand.NewSource(seed + int64(r)*104729))
+				prio := map[int]int{}
+				for i, j := range rng.Perm(len(c.tids)) {
+					prio[c.tids[i]] = depth + j
+				}
+				change := map[int]int{}
+				for j := 0; j < depth-1; j++ {
+					change[1+rng.Intn(kmax)] = depth - 1 - j
+				}
+				_, _, _, err := execCase(c, out, runIdx, func(step int, en []int, last int) int {
+					if step >= 8*kmax {
+						return -1
+					}
+					if np, ok := change[step]; ok && last >= 0 {
+						prio[last] = np
+					}
+					best := en[0]
+					for _, e := range en {
+						if prio[e] > prio[best] {
+							best = e
+						}
+					}
+					return best
+				})
+				if err != nil {
+					return err
+				}
+				runIdx++
+			}
 		case "pref":
 			// follow the listed threads while they can move; where the listed thread is blocked or finished (the
 			// code under test changed), or after the list, run the lowest enabled thread: always a complete run
